@@ -258,6 +258,26 @@ def run(ctx):
     ctx.ob('R04.11', 'handle_task_future|task awaited again after the time-limit notification', bool(ys4) and ok4,
            'every path from send_timeout_notification to the removal of the task / release of its allocation suspends on the task future again', hb4.loc(ntf[0]))
 
+    # ---- R04.12 the per-index fraction entry is updated, never overwritten
+    ctx.rule('R04.12', 'ConciseResourceState::{remove,add}_fractions: every store into the free-fraction entry of an index is a read-modify-write of that entry (new = f(old, amount)); a store that does not depend on the old value drops the remainder that was still free there (sum resources accumulate all fractions in index 0)')
+    RVP = __import__('hqrules.core', fromlist=['rv_places']).rv_places
+    n12 = 0
+    for fn in ('remove_fractions', 'add_fractions'):
+        fb_ = prog.body(CONC + fn)
+        for bi in fb_.reachable():
+            for st in fb_.stmts(bi):
+                if st['k'] != 'a' or st['p'][1] != ['*'] or fb_.locals[st['p'][0]][0].replace(' ', '') not in ('&mutu32', "&'_mutu32"):
+                    continue
+                L = st['p'][0]
+                # does the stored value derive from a read of (*L)?
+                srcs = set()
+                for pl in RVP(st['rv']):
+                    srcs |= fb_.derived_from(pl[0], through_mutation=False)
+                rmw = any(any(pl == [L, ['*']] for pl in RVP(s2['rv'])) for x in srcs for d in fb_.defs().get(x, ()) if d[1] == 'a' for s2 in [d[2]]) or any(pl == [L, ['*']] for pl in RVP(st['rv']))
+                n12 += 1
+                ctx.ob('R04.12', f'{fn}|fraction entry read-modify-write', rmw, f'{fn}: the value stored into the fraction entry derives from its previous value', fb_.loc(bi, st))
+    ctx.floor('R04.12', n12, 3, 'stores into the fraction entry')
+
     # ---- R04.4
     lt = ts.call_blocks(REACT + 'launch_task')
     ctx.require(lt, 'R04.4: launch_task call')
